@@ -5,12 +5,13 @@ constructor is executed and the language of possible matches of the emitted rege
 spaces, letters, signs, digits ...), is decided against the specification language by regular-language inclusion in
 both directions (SMT regex theory + derivative-product procedure).  Sign variants and is_extensible likewise."""
 import itertools, random
-from .. import lang, rx2smt as R
+from .. import lang, vcrun, rx2smt as R
 from ..common import native, SEED
 from specs.build import B
 from specs import numerals
 
 LEVEL = "exploration"
+E = "pregex.meta.essentials."
 EDGES = [0, 1, 5, 9, 10, 11, 19, 20, 99, 100, 101, 109, 123, 199, 900, 999, 1000]
 
 
@@ -92,6 +93,8 @@ def run(rep, tier):
                         "evaluations": len(jobs), "distinct_nontrivial": len({(c[1], c[2], c[3], c[4]) for c in cases}),
                         "rule": "distinct (class, start, end, is_extensible)"})
     rep.extra["translator_crosscheck"] = xc
+    # argument validation of the template constructor, for ALL integers and every other argument kind (VCs)
+    vcrun.run_functions(rep, [E + "__Integer.__init__"], tier)
     rep.trusted += ["R3, R4, R6, R7", "rx2smt translator (cross-checked against CPython each run)", "z3 regex theory and the "
                     "derivative-product procedure (must agree)", "specs/numerals.py (self-tested against brute force each run)"]
     rep.assumptions += ["digit runs glued to letters / underscore are not matched in the non-extensible form (documented "
